@@ -33,7 +33,10 @@ def sym_strategy():
         "kind": st.sampled_from(["func", "func", "func", "data", "data", "data", "bss", "const", "tls", "ifunc"]),
         "owner": st.integers(0, 3),          # 0 = executable, k = library k (mod number of libraries)
         "users": st.lists(st.integers(0, 3), min_size=1, max_size=4),
-        "alias": st.sampled_from([False, False, True]),
+        # True: the public name is a weak alias of a strong internal name the owner uses (environ/__environ);
+        # "rev": the public name is the strong one and the owning library reaches the object through its own
+        # weak alias, which nothing in the executable mentions
+        "alias": st.sampled_from([False, False, True, "rev", "rev"]),
         "prot": st.sampled_from([False] * 7 + [True]),
         "strongalias": st.sampled_from([False] * 15 + [True]),
     })
@@ -75,6 +78,8 @@ def normalise(case):
         if len(users) < 2:
             users = sorted(set(users) | {(owner + 1) % (n + 1)})
         kind = s["kind"]
+        if s["alias"] == "rev" and kind in ("data", "bss", "const") and owner != 0:
+            users = sorted(set(users) | {0})      # the shape is about the executable using the strong name
         if kind in FUNCS and owner != 0 and 0 in users and case["exe"] == "nopic" and not case["raw"]:
             owner = 0       # see in_canonical_plt_domain()
         if (kind == "tls" and owner != 0 and tls_owned.get(owner) and case["bsymbolic"] and case["who"] in ("libs", "all")
@@ -89,7 +94,7 @@ def normalise(case):
         if kind in ("tls", "ifunc"):
             prot = False
         out.append({"k": k, "name": f"s{k}", "id": 1000 + 7 * k, "kind": kind, "owner": owner, "users": users,
-                    "alias": s["alias"] and kind in ("data", "bss", "const") and owner != 0, "prot": prot,
+                    "alias": s["alias"] if (kind in ("data", "bss", "const") and owner != 0) else False, "prot": prot,
                     "strongalias": s["strongalias"]})
     return out
 
@@ -145,12 +150,15 @@ def module_source(m, syms):
             elif is_func:
                 L.append(f"{vis}int {n}(void) {{ return {s['id']}; }}")
             elif s["kind"] == "data":
-                L.append(f"{vis}int {n}{'_real' if s['alias'] else ''} = {s['id']};")
+                L.append(f"{vis}int {n}{'_real' if s['alias'] is True else ''} = {s['id']};")
             elif s["kind"] == "bss":
-                L.append(f"{vis}int {n}{'_real' if s['alias'] else ''};")
+                L.append(f"{vis}int {n}{'_real' if s['alias'] is True else ''};")
             else:
-                L.append(f"{vis}const int {n}{'_real' if s['alias'] else ''} = {s['id']};")
-            if s["alias"]:
+                L.append(f"{vis}const int {n}{'_real' if s['alias'] is True else ''} = {s['id']};")
+            if s["alias"] == "rev":
+                cst = "const " if s["kind"] == "const" else ""
+                L.append(f"extern {cst}int {n}_w __attribute__((weak, alias(\"{n}\")));")
+            elif s["alias"]:
                 # glibc pattern (environ/__environ): the public name is a weak alias of a strong
                 # internal name which the defining library itself uses.  GNU ld moves both along
                 # with a copy relocation of the weak name.  "strongalias": both names strong
@@ -165,7 +173,7 @@ def module_source(m, syms):
                      f"extern {'const ' if s['kind'] == 'const' else ''}{'__thread ' if s['kind'] == 'tls' else ''}int {n};")
         # The owner's library looks at its own data through the alias name (if any): the alias must
         # follow the symbol wherever a copy relocation moves it.
-        acc = f"{n}_real" if (s["alias"] and s["owner"] == m) else n
+        acc = (f"{n}_w" if s["alias"] == "rev" else f"{n}_real") if (s["alias"] and s["owner"] == m) else n
         if s["kind"] == "tls":
             # no static initialiser can hold a thread-local address: st_ is a second run-time view
             L.append(f"void *st_{me}_{n}(void) {{ void *volatile p = (void *)&{acc}; return p; }}")
@@ -294,7 +302,22 @@ class C38(Check):
         if test.out != ref.out or test.rc != ref.rc:
             bad = [ln for ln in test.out.strip().split("\n") if "=0" in ln][:6]
             if not ref_all_one:
-                raise OracleSplit(f"GNU-ld-linked program itself reports inequalities and wild differs from it: {bad}")
+                # GNU ld itself does not satisfy the statement here (e.g. it does not export an unreferenced weak
+                # alias of a copy-relocated object).  Second reference: lld.  If the lld-linked program satisfies
+                # the statement (all equal, exit 0), the statement is satisfiable for this program and wild is
+                # judged against it; otherwise the references are split.
+                if not self._lld_all_one(case, d, n, lflags, nocopy):
+                    raise OracleSplit(f"GNU-ld-linked program itself reports inequalities and wild differs from it: {bad}")
+                if not bad and test.rc == 0:
+                    # wild satisfies the statement where GNU ld does not
+                    classes.append("ld-reports-inequality-lld-and-wild-all-equal")
+                    info["classes"] = classes
+                    info["counters"] = {"booleans": test.out.count("=")}
+                    return info
+                sig = self._signature(test, bad, syms) + ":lld-reference"
+                raise Violation(sig, f"exe={case['exe']} who={case['who']}: the lld-linked program prints all-equal (GNU ld's does "
+                                f"not), the wild-linked program rc={test.rc} reports {bad or test.err[-200:]}",
+                                {"stderr": test.err[-300:]})
             sig = self._signature(test, bad, syms)
             if in_canonical_plt_domain(case) and sig.startswith(("addr:func:lib-defined", "addr:ifunc:lib-defined")):
                 sig = KNOWN_CANON
@@ -307,6 +330,28 @@ class C38(Check):
         info["classes"] = classes
         info["counters"] = {"booleans": ref.out.count("=")}
         return info
+
+    @staticmethod
+    def _lld_all_one(case, d, n, lflags, nocopy):
+        sub = f"{d}/lld"
+        os.mkdir(sub)
+        common = ["-Wl,--no-gc-sections"] + (["-Wl,-z,now"] if case["now"] else [])
+        for m in range(n, 0, -1):
+            deps = [f"lld/lib{j}.so" for j in range(m + 1, n + 1) if (m + j) % 2 == 1]
+            args = ["-shared", "-o", f"lld/lib{m}.so", f"lib{m}.o", *deps, *common, f"-Wl,-soname,lib{m}.so"]
+            if case["bsymbolic"]:
+                args.append("-Wl,-Bsymbolic")
+            r = patient.cc_link("lld", args, cwd=d)
+            if r.timed_out or r.rc != 0:
+                return False
+        args = [*lflags, "-o", "lld/prog", "main.o", "exe.o", *[f"lld/lib{m}.so" for m in range(1, n + 1)], *common]
+        if nocopy:
+            args.append("-Wl,-z,nocopyreloc")
+        r = patient.cc_link("lld", args, cwd=d)
+        if r.timed_out or r.rc != 0:
+            return False
+        out = patient.run_exe(f"{sub}/prog", cwd=d, env={"LD_LIBRARY_PATH": sub})
+        return (not out.timed_out) and out.rc == 0 and bool(out.out.strip()) and "=0" not in out.out
 
     @staticmethod
     def _ok(linker, r, what):
